@@ -1,7 +1,7 @@
 (* C14 — Errors cross the Go/JS boundary in both directions with identity preserved.
    Executable definitions only.  Transcribed from /repo:
      vm.go       exceptionFromValue, handleThrow, vm.try, _throw.exec, leaveFinally.exec, vm.run (interrupt)
-     runtime.go  isUncatchableException, asUncatchableException, RunProgram (recover), runWrapped,
+     runtime.go  isUncatchableException (errors.As), asUncatchableException, RunProgram (recover), runWrapped,
                  AssertFunction/AssertConstructor, Try, ForOf, wrapReflectFunc (error branch), wrapJSFunc,
                  NewGoError, Exception.Unwrap, InterruptedError, StackOverflowError, leave (promise jobs)
      func.go     baseJsFuncObject.__call/_call (panic(ex) with the SAME *Exception), nativeFuncObject.vmCall
@@ -68,19 +68,11 @@ with ebase_has (f : ebase -> bool) (b : ebase) : bool :=
 Definition is_intr (b : ebase) := match b with BIntr _ => true | _ => false end.
 Definition is_so (b : ebase) := match b with BSO => true | _ => false end.
 
-(* isUncatchableException: for ; e != nil; e = errors.Unwrap(e) — follows Unwrap() error only, so it
-   stops at an errors.Join layer; *Exception.Unwrap leads into a GoError's value *)
-Fixpoint layers_open (ls : list elayer) : bool :=
-  match ls with [] => true | LWrap :: r => layers_open r | LJoin _ :: _ => false end.
+(* isUncatchableException (after fix 63ed9d0): errors.As(e, &uncatchableException) — walks fmt.Errorf %w chains,
+   errors.Join trees and Exception.Unwrap (into the value of a GoError); joined-in sentinels are never uncatchable *)
+Definition is_unc_base (b : ebase) : bool := is_intr b || is_so b.
 
-Fixpoint value_unc (v : value) : bool :=
-  match v with VGoErr _ e => gerr_unc e | _ => false end
-with gerr_unc (e : gerr) : bool :=
-  match e with GErr ls b => layers_open ls && ebase_unc b end
-with ebase_unc (b : ebase) : bool :=
-  match b with BIntr _ => true | BSO => true | BExc v _ => value_unc v | BSent _ => false end.
-
-Definition uncatchable := gerr_unc.
+Definition uncatchable (e : gerr) : bool := gerr_has is_unc_base e.
 
 (* --- panic values and signals ---------------------------------------------------------------- *)
 
@@ -361,12 +353,5 @@ Definition pv_is (t : N) (p : panicval) : bool :=
 
 Definition gerr_base (e : gerr) : ebase := match e with GErr _ b => b end.
 
-(* an InterruptedError / StackOverflowError under fmt.Errorf("%w") layers only *)
-Definition hard_unc (e : gerr) : bool :=
-  match e with GErr ls b => layers_open ls && (is_intr b || is_so b) end.
-
-Definition no_join (f : frame) : bool :=
-  match f with
-  | FNat n => match n_h n with HReturnJoin _ => false | _ => true end
-  | FJS _ => true
-  end.
+(* an InterruptedError / StackOverflowError under any stack of %w / errors.Join layers *)
+Definition hard_unc (e : gerr) : bool := is_unc_base (gerr_base e).
